@@ -34,6 +34,12 @@ fn main() {
         "C15" | "statedb" => c15::run(seed, n, replay, &mut out),
         "C19" | "prestate" => c19::run(seed, n, replay, &mut out),
         "bundle" => bundle::run(seed, n, replay, &mut out),
+        #[cfg(feature = "optimism")]
+        "C33" => c33::run(seed, n, replay, &mut out),
+        #[cfg(feature = "optimism")]
+        "opfee" => c33::run_opfee(seed, n, replay, &mut out),
+        #[cfg(feature = "optimism")]
+        "optx" => c33::run_optx(seed, n, replay, &mut out),
         other => {
             eprintln!("unknown component {other}");
             std::process::exit(2);
